@@ -499,7 +499,14 @@ func (g *genCtx) fieldType(t *rapid.T, depth int) TypeSpec {
 		ts = g.disjunction(t, depth)
 	case "tornull":
 		inner := g.fieldType(t, depth+1)
+		if inner.Kind == "disjunction" {
+			// (A | null) | null is normalised away by every front-end
+			inner = g.scalarType(t, false)
+		}
 		ts = TypeSpec{Kind: "disjunction", Branches: []TypeSpec{inner, {Kind: "scalar", Scalar: "null"}}}
+		if rapid.IntRange(0, 3).Draw(t, "nullfirst") == 0 {
+			ts.Branches[0], ts.Branches[1] = ts.Branches[1], ts.Branches[0]
+		}
 	case "constref":
 		enums := g.objsOfClass(clsEnumString, clsEnumInt)
 		if len(enums) == 0 {
@@ -569,7 +576,12 @@ func (g *genCtx) disjunction(t *rapid.T, depth int) TypeSpec {
 			if depth+1 >= g.cfg.MaxDepth {
 				ts.Branches = append(ts.Branches, g.scalarType(t, false))
 			} else {
-				ts.Branches = append(ts.Branches, g.fieldType(t, depth+1))
+				b := g.fieldType(t, depth+1)
+				if b.Kind == "disjunction" {
+					// directly nested unions are flattened by every front-end
+					b = g.scalarType(t, false)
+				}
+				ts.Branches = append(ts.Branches, b)
 			}
 		}
 	}
